@@ -126,6 +126,15 @@ pub fn gen_c08(ctx: &Ctx, rng: &mut Rng, out: &mut Vec<String>) {
         // in a run with projection as well (precision fixed)
         if gt.len() <= 3 { out.push(format!("c08.cli\tvcf\tstdin\t4\t0\t0\ts0,s1\ts:s0=A,s1=A\tshape:3\t0\t4\tchr2~77~{gt},0/1;chr2~78~0/1,1/1")); }
     }
+    // two and three selected columns: every ordered combination of (called, missing, multiallelic, not diploid) — a ploidy error must
+    // abort the run wherever it stands relative to a skipped genotype; with and without projection, 1 and 2 populations
+    let classes = ["0/1", "./.", "1/2", "0", "0/0/1", "."];
+    for a in classes { for b in classes { for c in ["1/1", "./.", "0|1|1"] {
+        for (sl, proj) in [("s:s0=A,s1=A,s2=A", "N"), ("s:s0=A,s1=B,s2=A", "N"), ("s:s0=A,s1=A,s2=A", "shape:3"), ("s:s0=A,s2=B", "N")] {
+            if !ctx.tier_thorough && proj != "N" && c != "1/1" { continue; }
+            out.push(format!("c08.cli\tvcf\tstdin\t4\t0\t0\ts0,s1,s2\t{sl}\t{proj}\t0\t{}\tchr3~5~{a},{b},{c};chr3~6~0/1,1/1,0/0", if proj == "N" { "-" } else { "4" }));
+        }
+    } } }
 }
 
 pub fn gen_c09(ctx: &Ctx, rng: &mut Rng, out: &mut Vec<String>) {
@@ -301,6 +310,17 @@ pub fn gen_c02(ctx: &Ctx, rng: &mut Rng, out: &mut Vec<String>) {
             let gts = record(&mut g, &assign, [if rep == 0 { 100 } else { 90 }, if rep == 0 { 0 } else { 10 }, 0, 0], false, true);
             let m = match rep { 0 => 2 * n, 1 => n, _ => 1 + g.rng.range(1, n as u64) as usize };
             out.push(format!("c02.mem\t{}\tN\tshape:{}\t1~1~{}", cols(n).join(","), m + 1, gts.join(",")));
+        }
+        // targets at the edge of the f64 range: the smallest m with C(t, m) > f64::MAX and its neighbours (and the mirrored ones),
+        // where the denominator binomial overflows while the numerator binomials near the mode are still finite
+        let t = 2 * n;
+        let ln_choose = |t: usize, m: usize| -> f64 { (1..=m).map(|i| ((t - m + i) as f64 / i as f64).ln()).sum() };
+        if let Some(m0) = (1..=t / 2).find(|&m| ln_choose(t, m) > 709.78) {
+            let assign: Vec<Option<usize>> = vec![Some(0); n];
+            for (j, m) in [m0 - 1, m0, m0 + 1, m0 + 7, t - m0, t - m0 - 3].into_iter().enumerate() {
+                let gts = record(&mut g, &assign, [if j % 2 == 0 { 100 } else { 99 }, if j % 2 == 0 { 0 } else { 1 }, 0, 0], false, true);
+                out.push(format!("c02.mem\t{}\tN\tshape:{}\t1~1~{}", cols(n).join(","), m + 1, gts.join(",")));
+            }
         }
     }
 }
